@@ -51,8 +51,11 @@ func (w *WaterMark) Init(closer *Closer) {
 
 // Begin sets the last index to the given value.
 func (w *WaterMark) Begin(index uint64) {
-	w.setLastIndex(index)
+	// Count the index before publishing it: tryAdvance only looks at indices
+	// up to lastIndex, so it must never see lastIndex >= index while the slot
+	// of index is still zero.
 	w.addIndex(index, 1)
+	w.setLastIndex(index)
 }
 
 // BeginMany works like Begin but accepts multiple indices.
@@ -60,10 +63,10 @@ func (w *WaterMark) BeginMany(indices []uint64) {
 	if len(indices) == 0 {
 		return
 	}
-	w.setLastIndex(indices[len(indices)-1])
 	for _, idx := range indices {
 		w.addIndex(idx, 1)
 	}
+	w.setLastIndex(indices[len(indices)-1])
 }
 
 // Done sets a single index as done.
